@@ -100,11 +100,18 @@ def run(repo, tier):
     NEG = ("float('-inf'|)", "-numpy.inf", "-math.inf", "-1*numpy.inf", "-1*math.inf")
 
     def is_neg_test(k, var):
-        return k.startswith("Eq(") and any(n in k for n in NEG) and (k.endswith(",%s)" % var) or k.startswith("Eq(%s," % var))
+        # Eq(<-inf>, var) in any spelling of minus infinity: float('-inf'), -numpy.inf, -math.inf, -1*float('inf') (a hoisted constant)
+        if not k.startswith("Eq("):
+            return False
+        a_, _, b_ = k[3:-1].rpartition(",")
+        other = a_ if b_ == var else (b_ if a_ == var else None)
+        if other is None:
+            return False
+        return "inf" in other and ("-inf" in other or other.startswith("-") or "-1*" in other or "-numpy" in other or "-math" in other)
     if paths is None:
         out.append(unrecognised("LOGADD", fi, role, "too many paths"))
     else:
-        arith = [p for p in paths if p["outcome"] and p["outcome"][0] == "return" and ("-1*" in p["outcome"][1] or "math.pow" in p["outcome"][1])]
+        arith = [p for p in paths if p["outcome"] and p["outcome"][0] == "return" and any(tok in p["outcome"][1] for tok in ("math.pow", "math.log", "numpy.log", "math.exp", "Pow(", "x + ", "+ 1*x", "+ 1*y")) and ("x" in p["outcome"][1] or "y" in p["outcome"][1])]
         bad = [p for p in arith if any(is_neg_test(k, "x") and v for k, v in p["decisions"].items())
                and any(is_neg_test(k, "y") and v for k, v in p["decisions"].items())]
         # a path that returns arithmetic without ever having tested both operands against -inf
@@ -118,7 +125,8 @@ def run(repo, tier):
             out.append(violation("LOGADD", fi, role, "a path reaches the arithmetic with x = y = -inf (%s): vmin - vmax = -inf - (-inf) = NaN" % (
                 "both tests true" if bad else "operands never tested against -inf"), first_sub, semantic=True,
                 witness={"decisions": (bad or untested)[0]["decisions"]}))
-        elif not both or any(p["outcome"] is None or "-inf" not in str(p["outcome"]) for p in both):
+        elif not both or any(p["outcome"] is None or not ("inf" in str(p["outcome"][1]) and ("-inf" in str(p["outcome"][1]) or "-1*" in str(p["outcome"][1])
+                                                          or str(p["outcome"][1]).startswith("-"))) for p in both):
             out.append(unrecognised("LOGADD", fi, role, "no path takes both -inf tests / it does not return -inf: %s" % [p["outcome"] for p in both][:2]))
         else:
             out.append(holds("LOGADD", fi, role, "%d arithmetic path(s), none with x = y = -inf; the (-inf, -inf) path returns -inf" % len(arith), first_sub))
